@@ -69,6 +69,10 @@ def write_evidence(prop, tier, seed, level, results, cut, wall, extra, nviol):
                 break
     n = len(results)
     steps = stats.get("steps", 0)
+    united = {}
+    for r in results:
+        for k, v in (r.get("sets") or {}).items():
+            united.setdefault(k, set()).update(v)
     ev = {
         "property_id": prop,
         "tier": tier,
@@ -86,6 +90,7 @@ def write_evidence(prop, tier, seed, level, results, cut, wall, extra, nviol):
             "faults_fired": {k[6:]: v for k, v in sorted(stats.items()) if k.startswith("fault:")},
             "probes": {k[6:]: v for k, v in sorted(stats.items()) if k.startswith("probe:")},
             "counters": {k: v for k, v in sorted(stats.items()) if ":" not in k},
+            "distinct_sets": {k: len(v) for k, v in sorted(united.items())},
             "run_status": dict(status),
             "wall_cap_cut_the_batch": bool(cut),
             "components": REAL_STUB,
